@@ -14,6 +14,10 @@ TECH = {
  "C09": "TLC reachability model (WellFormed invariant) + WellFormed asserted by TLC on every line of every recorded trace",
  "C11": "TLC: streaming decoder vs position-based reference for all class strings x cuts (MC), vectors replayed, traces validated",
  "C17": "TLC history variable `need` over recorded traces (need <= dirty <= rows) + spec-level dirty invariant in every bounded model",
+ "C14": "TLC bounded models (single steps and multi-step save/restore sequences replayed on the code) + trace validation with a history variable: the saved-cursor stack as the specification knows it",
+ "C18": "TLC bounded models (all cursors; widths up to 140 with edited stops and width changes) + trace validation with a history variable: the tab stops as the specification knows them",
+ "C05": "TLC bounded model (closed forms vs operational spec; every operation x parameter x state replayed on the code through api, chars and bytes) + Apalache inductive invariant over unbounded geometry + TLC trace validation of random walks",
+ "C10": "TLC: Render vs a second definition (MC); display output and state judged per step; paired runs with display() at different positions compared by TLC",
  "C19": "TLC: OSC payload extraction (MC vectors over payload alphabet x terminators x introducers) + trace validation",
 }
 DEFAULT_TECH = "TLC bounded model (declarative property vs operational spec, one vector per transition replayed on the code) + TLC trace validation of seeded random walks"
